@@ -10,6 +10,8 @@ import (
 	"math/rand"
 	"net"
 	"os"
+	"runtime"
+	"strings"
 	"sync"
 	"sync/atomic"
 	"time"
@@ -91,6 +93,7 @@ type H struct {
 	keyRL    map[string]dht.QueryRateLimiting
 	failNext int32 // inject a write failure on the next n writes
 	tn       int
+	node     string // name of this node in multi-node traces ("" otherwise)
 }
 
 func fail(format string, a ...any) {
@@ -116,8 +119,27 @@ type recB44 struct {
 	inner bep44.Store
 }
 
+// calledFrom reports whether a function whose name contains sub is on the caller's stack.
+func calledFrom(sub string) bool {
+	pc := make([]uintptr, 32)
+	n := runtime.Callers(2, pc)
+	fr := runtime.CallersFrames(pc[:n])
+	for {
+		f, more := fr.Next()
+		if strings.Contains(f.Function, sub) {
+			return true
+		}
+		if !more {
+			return false
+		}
+	}
+}
+
 func (r *recB44) Put(i *bep44.Item) error {
 	err := r.inner.Put(i)
+	if !calledFrom("(*Server).handleQuery") {
+		return err // a store through the local API (Server.Put), not the effect of a datagram
+	}
 	r.h.mu.Lock()
 	t := i.Target()
 	var ip net.IP
@@ -132,10 +154,14 @@ func (r *recB44) Get(t bep44.Target) (*bep44.Item, error) { return r.inner.Get(t
 func (r *recB44) Del(t bep44.Target) error                { return r.inner.Del(t) }
 
 func newH(rng *rand.Rand, tr *sim.Trace, seg int, o opts) *H {
-	h := &H{rng: rng, tr: tr, seg: seg, o: o, ins: map[string]inInfo{}, calls: map[string][]int{},
+	return newHAt(rng, tr, seg, o, "45.9.9.9:4000", "")
+}
+
+func newHAt(rng *rand.Rand, tr *sim.Trace, seg int, o opts, local string, node string) *H {
+	h := &H{rng: rng, tr: tr, seg: seg, o: o, node: node, ins: map[string]inInfo{}, calls: map[string][]int{},
 		rated: map[int]dht.QueryRateLimiting{}, writesOf: map[string]int{}, keyRL: map[string]dht.QueryRateLimiting{}}
 	rng.Read(h.own[:])
-	h.conn = sim.NewConn("45.9.9.9:4000")
+	h.conn = sim.NewConn(local)
 	h.conn.OnWrite = func(b []byte, to net.Addr) error {
 		if atomic.LoadInt32(&h.failNext) > 0 && atomic.AddInt32(&h.failNext, -1) >= 0 {
 			h.conn.Failed(b, to)
@@ -197,7 +223,7 @@ func newH(rng *rand.Rand, tr *sim.Trace, seg int, o opts) *H {
 		bl = append(bl, sim.Hex([]byte(k)))
 	}
 	rateJ := o.ratePerSec
-	tr.Emit(sim.M{"seg": seg, "e": "Start", "passive": o.passive, "peerstore": o.peerstore, "announcecb": o.announcecb,
+	tr.Emit(sim.M{"seg": seg, "node": node, "e": "Start", "passive": o.passive, "peerstore": o.peerstore, "announcecb": o.announcecb,
 		"own": sim.Hex(h.own[:]), "blocked": bl, "burst": o.burst, "rate": rateJ, "wait": o.wait, "hook": o.hook})
 	return h
 }
@@ -341,7 +367,7 @@ func (h *H) logOut(o sim.Out, failed bool) *sim.Dict {
 	y, _ := d.Str("y")
 	t, _ := d.Str("t")
 	dst := o.To
-	m := sim.M{"seg": h.seg, "e": "Out", "dst": sim.M{"ipn": sim.Hex(dst.IP.To16()), "port": dst.Port}, "y": string(y),
+	m := sim.M{"seg": h.seg, "node": h.node, "e": "Out", "dst": sim.M{"ipn": sim.Hex(dst.IP.To16()), "port": dst.Port}, "y": string(y),
 		"t": sim.Hex(t), "kind": "", "idOk": false, "ipOk": false, "token": "", "hasToken": false, "values": [][]any{},
 		"ro": false, "q": "", "rated": true, "failed": failed, "ms": int(o.When.Sub(h.t0) / time.Millisecond), "ih": "",
 		"want4": false, "want6": false}
@@ -422,14 +448,8 @@ func (h *H) settle() []*sim.Dict {
 }
 
 func (h *H) flush(quiesce bool) (res []*sim.Dict) {
-	h.mu.Lock()
-	cbs := h.cbs
-	h.cbs = nil
-	h.mu.Unlock()
-	for _, c := range cbs {
-		ip := c.ip
-		h.tr.Emit(sim.M{"seg": h.seg, "e": "Cb", "kind": c.kind, "ih": c.ih, "ip": sim.Hex(ip), "ipn": sim.Hex(ip.To16()),
-			"port": c.port, "portOk": c.portOk, "fam": famOf(ip)})
+	for _, c := range h.takeCbs() {
+		h.emitCb(c)
 	}
 	for _, o := range h.conn.TakeAll() {
 		res = append(res, h.logOut(o.Out, o.Failed))
@@ -438,6 +458,20 @@ func (h *H) flush(quiesce bool) (res []*sim.Dict) {
 		h.tr.Emit(sim.M{"seg": h.seg, "e": "Quiesce", "txns": h.srv.Stats().OutstandingTransactions})
 	}
 	return
+}
+
+func (h *H) takeCbs() []cbRec {
+	h.mu.Lock()
+	defer h.mu.Unlock()
+	cbs := h.cbs
+	h.cbs = nil
+	return cbs
+}
+
+func (h *H) emitCb(c cbRec) {
+	ip := c.ip
+	h.tr.Emit(sim.M{"seg": h.seg, "node": h.node, "e": "Cb", "kind": c.kind, "ih": c.ih, "ip": sim.Hex(ip), "ipn": sim.Hex(ip.To16()),
+		"port": c.port, "portOk": c.portOk, "fam": famOf(ip)})
 }
 
 func (h *H) setClock(sec int64) {
